@@ -25,7 +25,7 @@ def mod():
     return _c['m']
 
 
-SUP = ['src/engine/engine_util_errmem.c']
+SUP = ['src/engine/engine_util_errmem.c', 'src/engine/engine_support.c', 'src/engine/engine_util_blas.c', 'src/engine/engine_util_misc.c', 'src/engine/engine_memory.c', 'src/engine/engine_init.c']
 
 
 def so():
@@ -55,8 +55,8 @@ def I(v): return z3.BitVecVal(v, 32)
 def sx(v): return z3.SignExt(64 - v.size(), v) if v.size() < 64 else v
 
 
-def unit_validate(tier, n, only=None):
-    ck = Checker('validate_n%d_%s' % (n, only or 'base'), tier, timeout_s=120)
+def unit_validate(tier, n, only=None, distinct=False):
+    ck = Checker('validate_n%d_%s%s' % (n, only or 'base', '_distinct' if distinct else ''), tier, timeout_s=120)
     L = lay(); rows = table()
     ck.selfcheck('reference table extracted', len(rows) > 80, len(rows))
     w = W.World()
@@ -64,6 +64,9 @@ def unit_validate(tier, n, only=None):
     # counts multiply, so each family is exercised in its own unit (count n) with the other families empty
     fam = ['neq', 'nwrap', 'nactuator', 'nsensor', 'ntuple', 'nexclude']
     sizes = {f: (n if f == only else 0) for f in fam}
+    if distinct:
+        # targets of different reference rows get different sizes, so that a check against the wrong size field is visible
+        sizes.update({'nq': 9, 'nv': 7, 'nbody': 2, 'njnt': 1, 'ngeom': 1, 'nmat': 3, 'nM': 4, 'na': 2, 'nu': 3, 'nmocap': 1, 'nnames': 5, 'npaths': 2, 'ntree': 1, 'nbvh': 2, 'nplugin': 0})
     M, xrows = W.full_struct(w, L, 'mjModel_', 'MJMODEL_POINTERS', sizes, 'm', default_size=n, sym_ints=True)
     for (arr, nadrs, target, num) in rows:
         if target not in M.sizes: M.set(target, n); M.sizes[target] = n
@@ -158,10 +161,86 @@ def unit_header(tier):
     return ck
 
 
+def file_replay(bsz):
+    """replay on the real code with a real file: make a minimal model (nbody = 1) with the real mj_makeModel, save it with the real mj_saveModel,
+    and load the first buffer_sz bytes; reproduced iff the real loader ends in mju_error (exit through the error handler)"""
+    import ctypes
+    def rp(model, witness):
+        n_req = W.evalnum(model, bsz)
+        def child():
+            lib = W.load_lib(so())
+            mp = ctypes.c_void_p(0)
+            args = [ctypes.c_int64(0)] * 84; args[6] = ctypes.c_int64(1)
+            lib.mj_makeModel(ctypes.byref(mp), *args)
+            if not mp.value: return {'no_model': True}
+            lib.mj_sizeModel.restype = ctypes.c_int64
+            n = lib.mj_sizeModel(mp)
+            data = ctypes.create_string_buffer(n)
+            lib.mj_saveModel(mp, None, data, ctypes.c_int64(n))
+            exact = (ctypes.c_char * max(n_req, 1)).from_buffer_copy(bytes(data.raw[:n_req]).ljust(max(n_req, 1), b'\0'))
+            lib.mj_loadModelBuffer.restype = ctypes.c_void_p
+            r = lib.mj_loadModelBuffer(exact, ctypes.c_int(n_req))
+            return {'file_size': n, 'loaded': r}
+        st_ = W.run_child(child)
+        return st_[0] == 'error', {'native': st_[0], 'buffer_sz': n_req, 'detail': str(st_[1:])[:300]}
+    return rp
+
+
+def unit_body(tier):
+    """mj_loadModelBuffer past mj_makeModel: the stub hands back a model with every array present and empty (all sizes 0), so the
+    struct block, the flag bytes and the (empty) array section are read from a buffer of SYMBOLIC size"""
+    ck = Checker('loadbody', tier, timeout_s=120)
+    m = mod(); L = lay()
+    from vf.irparse import PtrT
+    w = W.World()
+    bsz = z3.BitVec('buffer_sz', 32); w.syms.append(('buffer_sz', 'i32', bsz))
+    buf = w.obj('buffer', z3.ZeroExt(32, bsz))
+    nsize = len(re.findall(r'X\s*\(\s*\w+\s*\)', open(os.path.join(build.REPO, 'include/mujoco/mjxmacro.h')).read().split('#define MJMODEL_SIZES')[1].split('\n\n')[0]))
+    # valid header: take the expected values from a concrete native call of the accessor functions
+    import ctypes
+    lib = ctypes.CDLL(so())
+    try: expect = [lib.vf_header_id() if hasattr(lib, 'vf_header_id') else None]
+    except Exception: expect = [None]
+    hdr = [buf.sym(4 * i, 'i32', 'hdr%d' % i) for i in range(5)]
+    for i in range(nsize): buf.put(20 + 8 * i, 'i64', 0)
+    tail0 = 20 + 8 * nsize
+    structs = L.sizeof('mjOption_') + L.sizeof('mjVisual_') + L.sizeof('mjStatistic_') + 2
+    for i in range(structs + 16): buf.put(tail0 + i, 'u8', 0)
+    fam = {}
+    M, xrows = W.full_struct(w, L, 'mjModel_', 'MJMODEL_POINTERS', fam, 'model', default_size=0)
+    M.set('nbuffer', 0)
+    def mk(ex, st, args, ins):
+        st.log.append(('call', 'mj_makeModel')); ex.store(st, args[0], PtrT(IntT(8)), w.P(M.o)); return None
+    def delm(ex, st, args, ins): st.log.append(('call', 'mj_deleteModel')); return None
+    ex = llsym.Exec(m, loop_bound=600, stubs={'mj_makeModel': mk, 'mj_deleteModel': delm, 'mj_validateReferences': lambda ex, st, a, i: llsym.NULL}, max_paths=5000)
+    st = w.to_state(ex); st.pc += [bsz >= 0]
+    res = ex.run('@mj_loadModelBuffer', [w.P(buf), bsz], st)
+    ck.note_results(ex, res)
+    full = tail0 + structs
+    dec = lambda mdl: {'buffer_sz': W.evalnum(mdl, bsz), 'complete_file_size': full}
+    nok = 0
+    for r in res:
+        if r.kind == 'error':
+            ck.prove('loadModelBuffer: a truncated or oversized buffer is rejected with NULL, never with a fatal mju_error', r.state.pc, z3.BoolVal(False), site='mj_loadModelBuffer:error', decode=dec,
+                     replay=file_replay(bsz)); continue
+        if r.kind != 'return': continue
+        isnull = isinstance(r.value, llsym.Ptr) and r.value.obj == 0
+        if isnull:
+            ck.prove('loadModelBuffer: NULL is returned with a warning', r.state.pc, z3.BoolVal(any(e[0] == 'warning' for e in r.state.log)), site='mj_loadModelBuffer:null-warning', decode=dec)
+        else:
+            nok += 1
+            ck.prove('loadModelBuffer: a model is returned only for a buffer of exactly the file size', r.state.pc, z3.ZeroExt(32, bsz) == full, site='mj_loadModelBuffer:exact-size', decode=dec)
+    if nok == 0: ck.error('no accepting path (valid header not reachable?)')
+    ck.reach('truncated inside the struct block', [bsz >= tail0, bsz < full])
+    ck.memory_obligations(res, decode=dec)
+    return ck
+
+
 def units(tier):
-    u = [('header', 'unit_header', {})]
+    u = [('header', 'unit_header', {}), ('loadbody', 'unit_body', {})]
     for only in (None, 'neq', 'nwrap', 'nactuator', 'nexclude'):
         u.append(('validate_n1_%s' % (only or 'base'), 'unit_validate', {'n': 1, 'only': only}))
+    u.append(('validate_distinct', 'unit_validate', {'n': 1, 'only': None, 'distinct': True}))
     if tier == 'thorough':
         for only in (None, 'neq', 'nactuator'): u.append(('validate_n2_%s' % (only or 'base'), 'unit_validate', {'n': 2, 'only': only}))
     return u
